@@ -56,6 +56,7 @@ type Host struct {
 	SL  []int32
 	AR  [4]uint8
 	Emb
+	SL2 []int32 // a second slice of SL's type: `H.SL = H.SL2` replaces the field's value as a whole
 	AW  [3]int64 // array field whose elements rules store into (locals bound to the whole array keep its value)
 
 	rec *Recorder
@@ -204,6 +205,7 @@ func NewFixture(seed int64) *Fixture {
 			SL:  []int32{int32(pickI(r, 32)), 2, int32(pickI(r, 32)), 4},
 			AR:  [4]uint8{uint8(pickU(r, 8)), 1, 2, uint8(pickU(r, 8))},
 			AW:  [3]int64{pickI(r, 16), 7, pickI(r, 32)},
+			SL2: []int32{int32(pickI(r, 16)), 12, 13, int32(pickI(r, 32))},
 			Emb: Emb{EI: pickI(r, 64), EU: uint16(pickU(r, 16)), EF: F64Pool[r.Intn(len(F64Pool))], ES: StrPool[r.Intn(len(StrPool))]},
 			rec: rec,
 		}
